@@ -291,6 +291,14 @@ func e2eRetransWorker(args []string) error {
 		w.Peer("p1").SetPolicy(policy)
 
 		for round := 0; round < p.Rounds && !w.Died; round++ {
+			// a new association numbers its requests from 1 again: what the scripted peer remembers by sequence number is forgotten
+			w.Peer("p1").ResetRequests()
+			pmu.Lock()
+			for k := range planMap {
+				delete(planMap, k)
+			}
+			pmu.Unlock()
+
 			w.Heartbeat("p1") // heartbeats before association are answered too
 
 			setCur(rtPlan{"kth", 1})
